@@ -122,7 +122,10 @@ def run_map(prop, seed, tier, replay):
            "transitions": st["tlc_states"] + sum(m["states"] for m in ms.values()),
            "traces_validated_against_impl": st["records"], "evaluations": st["cases"], "samples": samples,
            "design_models": ms, "pipeline_wall_s": round(st.get("wall", 0), 1),
-           "rule": "design models: MC_Chain (chaining algorithm = exact composition on ALL small map pairs) and MC_Reader (full "
+           "original_maps_with_range_tokens": sum(1 for c in res["cases"].values()
+                                                  if any(t.get("rng") for t in (c.get("otoks") or []))),
+           "rule": "design models: MC_Chain (chaining algorithm = exact composition on ALL small map pairs, with and without "
+                   "range tokens) and MC_Reader (full "
                    "product of reference kinds x parent answers x settings, every tuple replayed); observations: programs with "
                    "generator-known layouts (multi-line, CRLF, non-ASCII, comments, look-alike literals) x original maps of "
                    "every reference kind through a fault-injecting FileReader; the trailer is decoded by the harness's own "
